@@ -45,7 +45,7 @@ def write_reference(src_root):
 
 
 def _dump(f):
-    return ast.dump(ast.Module(body=f.body, type_ignores=[]), include_attributes=False) + ast.dump(f.args)
+    return ast.dump(ast.Module(body=f.body, type_ignores=[]), include_attributes=False) + ast.dump(f.args) + ''.join(ast.dump(d) for d in f.decorator_list) + type(f).__name__
 
 
 def _owner_map(tree):
@@ -183,6 +183,7 @@ def _class_scope(tree, cls, side, depth=0):
                     oc = [x for x in other.body if isinstance(x, ast.ClassDef) and x.name == real]
                     if oc:
                         found = True
+                        _BASE_TREES.append(other)
                         out += _class_scope(other, oc[0], side, depth + 1)
                         bad_o = equiv.module_bad_attrs(other)
                         _BASE_BAD[0] = None if (bad_o is None or _BASE_BAD[0] is None) else (_BASE_BAD[0] | bad_o)
@@ -192,6 +193,7 @@ def _class_scope(tree, cls, side, depth=0):
 
 
 _BASE_BAD = [set()]
+_BASE_TREES = []        # modules of base classes read by the last _class_scope walk
 
 
 def _called(f):
@@ -221,11 +223,13 @@ def _own(funcs, cls, names):
 
 def _sized(tree, cls, side, f):
     """(sized chains, sequence chains) usable in function f of class cls"""
-    bad = equiv.module_bad_attrs(tree) if tree is not None else None
-    if bad is None:
-        return set(), set()
     _UNRESOLVED[0] = False
     _BASE_BAD[0] = set()
+    bad = equiv.module_bad_attrs(tree) if tree is not None else None
+    if bad is None:
+        if cls is not None:
+            _class_scope(tree, cls, side)       # (still needed: is there a base class that cannot be read?)
+        return set(), set()
     scope = _class_scope(tree, cls, side) if cls is not None else []
     if _UNRESOLVED[0] or _BASE_BAD[0] is None:
         return set(), set()
@@ -254,6 +258,13 @@ def _ctx(tree, seqs, cls, unknown_base=False, side='cur'):
                 others |= {x.id for st in c.body for x in ast.walk(st) if isinstance(x, ast.Name) and isinstance(x.ctx, (ast.Store, ast.Del))}
         others |= _rebound_names(tree)
     glob = {x for n in ast.walk(tree) if isinstance(n, ast.Global) for x in n.names} if tree is not None else set()
+    base_props, base_hooks = set(), False
+    if cls is not None and tree is not None:
+        del _BASE_TREES[:]
+        _class_scope(tree, cls, side)
+        for bt in list(_BASE_TREES):
+            base_props |= set(equiv.module_all_properties(bt))
+            base_hooks = base_hooks or _hooks(bt)
     mw = {}
     if cls is not None and tree is not None and not unknown_base:
         _UNRESOLVED[0] = False
@@ -262,7 +273,7 @@ def _ctx(tree, seqs, cls, unknown_base=False, side='cur'):
             # _class_scope returns the flattened bodies (class first, then bases): the first definition of a name wins
             mw = equiv.class_method_writes([scope_nodes], others)
     return {'method_writes': mw, 'mutable_globals': glob, 'module_bound': equiv.module_bound_names(tree) if tree is not None else (),
-            'all_props': (set(equiv.module_all_properties(tree)) if tree is not None else set()) | ({'*'} if unknown_base or _hooks(tree) else set()),
+            'all_props': (set(equiv.module_all_properties(tree)) if tree is not None else set()) | base_props | ({'*'} if unknown_base or base_hooks or _hooks(tree) else set()),
             'seqs': seqs, 'other_class_methods': others}
 
 
@@ -293,39 +304,97 @@ def canonical_pair(f, cls, rf, cls_r, new_helpers, gone_helpers, cur_consts, ref
     return c1, c2
 
 
+_REF_DEFS = [None]
+
+
+def _reference_def_names():
+    """names of all functions / methods defined anywhere in the reference tree (the whole package)"""
+    if _REF_DEFS[0] is None:
+        import re
+        out = {}
+        for src in reference_sources().values():
+            for m in re.findall(r'^\s*(?:async\s+)?def\s+(\w+)', src, re.M):
+                out[m] = out.get(m, 0) + 1
+        _REF_DEFS[0] = out
+    return _REF_DEFS[0]
+
+
+def _mentions(node):
+    return {n.id for n in ast.walk(node) if isinstance(n, ast.Name)} | {n.attr for n in ast.walk(node) if isinstance(n, ast.Attribute)} \
+        | {n.value for n in ast.walk(node) if isinstance(n, ast.Constant) and isinstance(n.value, str) and n.value.isidentifier()}
+
+
+def _context_dump(tree, blank, remove):
+    """the module with the bodies of the functions in `blank` (qualified names) emptied and the functions in `remove` left out:
+    everything a gated function may depend on apart from the refactored bodies themselves"""
+    out = []
+
+    def fn(f, q):
+        if q in remove:
+            return
+        if q in blank:
+            out.append(('def', q, type(f).__name__, ast.dump(f.args), [ast.dump(d) for d in f.decorator_list]))
+        else:
+            out.append(ast.dump(f, include_attributes=False))
+    for st in tree.body:
+        if isinstance(st, (ast.FunctionDef, ast.AsyncFunctionDef)):
+            fn(st, st.name)
+        elif isinstance(st, ast.ClassDef):
+            out.append(('class', st.name, [ast.dump(b) for b in st.bases], [ast.dump(k) for k in st.keywords], [ast.dump(d) for d in st.decorator_list]))
+            for g in st.body:
+                if isinstance(g, (ast.FunctionDef, ast.AsyncFunctionDef)):
+                    fn(g, f'{st.name}.{g.name}')
+                else:
+                    out.append(ast.dump(g, include_attributes=False))
+            out.append(('endclass', st.name))
+        else:
+            out.append(ast.dump(st, include_attributes=False))
+    return out
+
+
 def apply(cur_tree, ref_tree, prepare):
     """prepare: callable(tree) applying the loader's statement normalisations to the reference tree.
-    Returns the list of qualified names analysed in their reference spelling."""
+    Returns the list of qualified names analysed in their reference spelling.
+
+    A function is read in its reference spelling only if (1) its canonical text equals the reference's, and (2) the rest of the
+    module - constants, imports, class statements, decorators, signatures, the bodies of every function whose body did not
+    change - is identical in both versions, apart from the bodies of changed functions and the helpers the refactoring created /
+    removed; (3) nothing it reaches (by name, through unchanged functions) is a function whose change was NOT recognised as a
+    refactoring.  Otherwise the module is analysed entirely as it stands."""
     prepare(ref_tree)
+    dynamic = False
     for t in (cur_tree, ref_tree):
         for n in ast.walk(t):
             if isinstance(n, ast.ImportFrom) and any(a.name == '*' for a in n.names) or isinstance(n, ast.Name) and n.id in ('globals', '__builtins__', 'exec', 'eval'):
                 return []       # names of this module may mean anything (star import, globals() edited by hand)
+            if isinstance(n, ast.Name) and n.id in ('setattr', 'getattr', 'hasattr', 'dir', 'vars', 'delattr') or isinstance(n, ast.Attribute) and n.attr == '__dict__':
+                dynamic = True  # attributes are bound / looked up by computed names: which function a name reaches is not decided
     _REBOUND[0] = frozenset(_rebound_names(cur_tree) | _rebound_names(ref_tree))
     cur = _owner_map(cur_tree)
     ref = _owner_map(ref_tree)
     new_names = [q for q in cur if q not in ref]
     gone_names = [q for q in ref if q not in cur]
-    all_new = _helper_table(cur, new_names, None)
-    all_new.update({k: v for c_ in {v[2].name: v[2] for v in cur.values() if v[2] is not None}.values() for k, v in _helper_table(cur, new_names, c_).items()})
-    all_gone = _helper_table(ref, gone_names, None)
-    all_gone.update({k: v for c_ in {v[2].name: v[2] for v in ref.values() if v[2] is not None}.values() for k, v in _helper_table(ref, gone_names, c_).items()})
-    gated = []
-    pasted_from = set()         # names mentioned by the current bodies of the gated functions (their helpers are among them)
+    refdefs = _reference_def_names()
+    # a created / removed function is a refactoring helper only if its name is private to this one place: defined nowhere else in
+    # the package (it could be a hook that a base class calls, or an override), and the module does no name-based dispatch
+    if dynamic:
+        new_names_h, gone_names_h = [], []
+    else:
+        new_names_h = [q for q in new_names if refdefs.get(q.split('.')[-1], 0) == 0]
+        gone_names_h = [q for q in gone_names if refdefs.get(q.split('.')[-1], 0) <= 1 and (equiv.REPO_DEFINED[0] is None or q.split('.')[-1] not in equiv.REPO_DEFINED[0])]
     cur_consts = equiv.module_constants(cur_tree)
     ref_consts = equiv.module_constants(ref_tree)
     cur_props = equiv.module_properties(cur_tree)
     ref_props = equiv.module_properties(ref_tree)
-    for q, (f, body_list, cls) in cur.items():
-        if q not in ref:
-            continue
+    changed = [q for q in cur if q in ref and _dump(cur[q][0]) != _dump(ref[q][0])]
+    decisions = []
+    for q in changed:
+        f, body_list, cls = cur[q]
         rf = ref[q][0]
-        if _dump(f) == _dump(rf):
+        if [ast.dump(d) for d in f.decorator_list] != [ast.dump(d) for d in rf.decorator_list] or type(f) is not type(rf) or ast.dump(f.args) != ast.dump(rf.args):
             continue
-        if [ast.dump(d) for d in f.decorator_list] != [ast.dump(d) for d in rf.decorator_list] or type(f) is not type(rf):
-            continue
-        new_helpers = _helper_table(cur, new_names, cls)
-        gone_helpers = _helper_table(ref, gone_names, ref[q][2])
+        new_helpers = _helper_table(cur, new_names_h, cls)
+        gone_helpers = _helper_table(ref, gone_names_h, ref[q][2])
         c1, c2 = canonical_pair(f, cls, rf, ref[q][2], new_helpers, gone_helpers, cur_consts, ref_consts, cur_props, ref_props, cur_tree, ref_tree)
         if c1 is not None and c2 is not None and c1 != c2:
             # a duplicated block replaced by a call to a function that exists in both versions (or the reverse): paste the
@@ -342,15 +411,81 @@ def apply(cur_tree, ref_tree, prepare):
                 c1, c2 = canonical_pair(f, cls, rf, ref[q][2], h1, h2, cur_consts, ref_consts, cur_props, ref_props, cur_tree, ref_tree)
         if c1 is None or c2 is None or c1 != c2:
             continue
-        # the reference body is going to be read inside the current module: the module-level constants it mentions must have the
-        # value they had there, and the functions it calls that exist in both versions must be the same functions
-        rnames = {n.id for n in ast.walk(rf) if isinstance(n, ast.Name)} | {n.attr for n in ast.walk(rf) if isinstance(n, ast.Attribute)}
-        if any(k in rnames and (k not in cur_consts or ast.dump(cur_consts[k]) != ast.dump(v)) for k, v in ref_consts.items()):
-            continue
-        changed_fns = {x.split('.')[-1] for x in ref if x in cur and _dump(cur[x][0]) != _dump(ref[x][0]) and x != q}
-        called_only_ref = {c_.replace('self.', '') for c_ in (_called(rf) - _called(f))}
-        if called_only_ref & changed_fns:
-            continue
+        decisions.append(q)
+    if not decisions:
+        return []
+    # --- (3) nothing reached from a gated reference body is a function that changed without being recognised
+    unrecognised = {q.split('.')[-1] for q in changed if q not in decisions}
+    by_bare = {}
+    for q, v in ref.items():
+        by_bare.setdefault(q.split('.')[-1], []).append(v[0])
+    ok = []
+    for q in decisions:
+        seen, todo = set(), [ref[q][0]]
+        bad = False
+        while todo and not bad:
+            fn_ = todo.pop()
+            for name in _mentions(fn_):
+                if name in seen:
+                    continue
+                seen.add(name)
+                if name in unrecognised:
+                    bad = True
+                    break
+                todo.extend(by_bare.get(name, []))
+        if not bad:
+            ok.append(q)
+    decisions = ok
+    if not decisions:
+        return []
+    # --- helpers of the refactoring: created ones that only gated current bodies (and other such helpers) mention, removed ones
+    # that only gated reference bodies (and other such helpers) mention
+    def closure(start_nodes, candidates, table):
+        used, todo = set(), list(start_nodes)
+        while todo:
+            n_ = todo.pop()
+            m_ = _mentions(n_)
+            for q_ in candidates:
+                if q_ not in used and q_.split('.')[-1] in m_:
+                    used.add(q_)
+                    todo.append(table[q_][0])
+        return used
+    new_used = closure([cur[q][0] for q in decisions], new_names_h, cur)
+    gone_used = closure([ref[q][0] for q in decisions], gone_names_h, ref)
+    # everything else of the current module (not a gated body, not one of those helpers) must not mention them
+    rest_cur = []
+    for st in cur_tree.body:
+        if isinstance(st, (ast.FunctionDef, ast.AsyncFunctionDef)):
+            if st.name not in decisions and st.name not in new_used:
+                rest_cur.append(st)
+        elif isinstance(st, ast.ClassDef):
+            for g in st.body:
+                if isinstance(g, (ast.FunctionDef, ast.AsyncFunctionDef)):
+                    if f'{st.name}.{g.name}' not in decisions and f'{st.name}.{g.name}' not in new_used:
+                        rest_cur.append(g)
+                else:
+                    rest_cur.append(g)
+            rest_cur.extend(st.bases)
+        else:
+            rest_cur.append(st)
+    rest_mentions = set()
+    for n_ in rest_cur:
+        rest_mentions |= _mentions(n_)
+    if any(q_.split('.')[-1] in rest_mentions for q_ in new_used | gone_used):
+        return []       # e.g. a function was deleted that other code still calls: not a refactoring
+    cur_gated_mentions = set()
+    for q in decisions:
+        cur_gated_mentions |= _mentions(cur[q][0])
+    if any(q_.split('.')[-1] in cur_gated_mentions for q_ in gone_used):
+        return []       # the current body still calls the function that is gone: it was deleted, not inlined
+    # --- (2) the rest of the module is the same in both versions
+    blank = set(changed)
+    if _context_dump(cur_tree, blank, new_used) != _context_dump(ref_tree, blank, gone_used):
+        return []
+    # --- substitute
+    gated = []
+    for q in decisions:
+        f, rf = cur[q][0], ref[q][0]
         new_body = copy.deepcopy(rf.body)
         shift = f.lineno - rf.lineno
         for st in new_body:
@@ -359,46 +494,24 @@ def apply(cur_tree, ref_tree, prepare):
                     n.lineno += shift
                 if hasattr(n, 'end_lineno') and n.end_lineno is not None:
                     n.end_lineno += shift
-        pasted_from |= {n.id for n in ast.walk(f) if isinstance(n, ast.Name)} | {n.attr for n in ast.walk(f) if isinstance(n, ast.Attribute)}
         f.body = new_body
         f._gated = True
         gated.append(q)
-    # helpers of the current tree that were created by a refactoring and are no longer referenced once their callers are
-    # read in the reference spelling are dropped with it; helpers the refactoring removed are not needed either
-    if gated and all_new:
-        for name, (h, is_method) in all_new.items():
-            if name not in pasted_from:
-                continue        # a new function that no gated function used: not a refactoring helper, it is analysed as it stands
-            still = False
-            for n in ast.walk(cur_tree):
-                if n is h:
-                    continue
-                if isinstance(n, ast.Name) and n.id == name or isinstance(n, ast.Attribute) and n.attr == name:
-                    # references inside the helper itself do not count
-                    if not any(x is n for x in ast.walk(h)):
-                        still = True
-                        break
-            if not still:
-                for q, (f, body_list, cls) in cur.items():
-                    if f is h and h in body_list:
-                        body_list.remove(h)
-                        gated.append(f'-{q}')
-    # functions the refactoring inlined away (present in the reference only) are restored when their former callers are
-    # now read in the reference spelling and call them again
-    if gated and all_gone:
-        for name, (h, is_method) in all_gone.items():
-            used = any((isinstance(n, ast.Name) and n.id == name) or (isinstance(n, ast.Attribute) and n.attr == name) for n in ast.walk(cur_tree))
-            if used:
-                for q, (f, body_list, cls) in ref.items():
-                    if f is h:
-                        target = None
-                        if cls is None:
-                            target = cur_tree.body
-                        else:
-                            for st in cur_tree.body:
-                                if isinstance(st, ast.ClassDef) and st.name == cls.name:
-                                    target = st.body
-                        if target is not None:
-                            target.append(copy.deepcopy(h))
-                            gated.append(f'+{q}')
+    for q_ in sorted(new_used):
+        h, body_list, _c = cur[q_]
+        if h in body_list:
+            body_list.remove(h)
+            gated.append(f'-{q_}')
+    for q_ in sorted(gone_used):
+        h, _bl, cls = ref[q_]
+        target = None
+        if cls is None:
+            target = cur_tree.body
+        else:
+            for st in cur_tree.body:
+                if isinstance(st, ast.ClassDef) and st.name == cls.name:
+                    target = st.body
+        if target is not None:
+            target.append(copy.deepcopy(h))
+            gated.append(f'+{q_}')
     return gated
